@@ -2,8 +2,8 @@ import DoitModel.Proofs.C08Dyn2
 /-! # C08 (I10) with calc_dep, step 2 continued: `InvN` is preserved by `dtick` and `send` -/
 namespace DoitModel.Run.Dyn
 
-theorem nodeStep_invN {inp : RunInput} [NoFailDeliver inp] {s s' : Sys} {n : Name} {nd : Node} {perm : List Name}
-    (h : InvN inp s) (hn : s.nodes n = some nd) (hs : nodeStep inp s n nd perm = some s') : InvN inp s' := by
+theorem nodeStep_invN {inp : RunInput} {s s' : Sys} {n : Name} {nd : Node} {perm : List Name}
+    (hF : StartF inp s) (h : InvN inp s) (hn : s.nodes n = some nd) (hs : nodeStep inp s n nd perm = some s') : InvN inp s' := by
   have hS := h n nd hn
   unfold nodeStep at hs
   cases hpc : nd.pc with
@@ -26,7 +26,7 @@ theorem nodeStep_invN {inp : RunInput} [NoFailDeliver inp] {s s' : Sys} {n : Nam
       exact genStep_invN d _ h hn (hS.setPc _ (by simp [hpc, PC.late]) (by simp [PC.ph2]))
     | nil =>
       cases hs
-      exact addWaitRun_invN _ _ _ h hn (waitNode_S _ true _ hS (fun d hd => by simp only [if_true]; exact hS.1.snapC d hd) (by simp [hpc, PC.late]) (by simp [PC.ph2]))
+      exact addWaitRun_invN _ _ _ h hn (waitNode_S hF _ true _ hS (fun d hd => by simp only [if_true]; exact hS.1.snapC d hd) (by simp [hpc, PC.late]) (by simp [PC.ph2]))
   | taskIter todo =>
     simp only [hpc] at hs
     cases todo with
@@ -36,7 +36,7 @@ theorem nodeStep_invN {inp : RunInput} [NoFailDeliver inp] {s s' : Sys} {n : Nam
     | nil =>
       cases hs
       exact addWaitRun_invN _ _ _ h hn
-        (waitNode_S _ false _ hS (fun d hd => by simp only [Bool.false_eq_true, if_false]; exact Or.inl (hS.1.snapT d hd)) (by simp [hpc, PC.late]) (by simp [PC.ph2]))
+        (waitNode_S hF _ false _ hS (fun d hd => by simp only [Bool.false_eq_true, if_false]; exact Or.inl (hS.1.snapT d hd)) (by simp [hpc, PC.late]) (by simp [PC.ph2]))
   | afterDeps =>
     simp only [hpc] at hs
     have okTop : NodeS inp s n { nd with pc := .loopTop } := hS.setPc _ (by simp [hpc, PC.late]) (by simp [PC.ph2])
@@ -76,7 +76,7 @@ theorem nodeStep_invN {inp : RunInput} [NoFailDeliver inp] {s s' : Sys} {n : Nam
     | nil =>
       cases hs
       exact addWaitRun_invN _ _ _ h hn
-        (waitNode_S _ false _ hS (fun d hd => by simp only [Bool.false_eq_true, if_false]; exact Or.inr (Or.inr ⟨rfl, hd⟩)) (by simp [PC.late]) (by simp [hpc, PC.ph2]))
+        (waitNode_S hF _ false _ hS (fun d hd => by simp only [Bool.false_eq_true, if_false]; exact Or.inr (Or.inr ⟨rfl, hd⟩)) (by simp [PC.late]) (by simp [hpc, PC.ph2]))
   | afterSetup =>
     simp only [hpc] at hs
     have ok' : NodeS inp s n { nd with pc := .self2 } := hS.setPc _ (by simp [PC.late]) (by simp [hpc, PC.ph2])
@@ -93,7 +93,7 @@ theorem nodeStep_invN {inp : RunInput} [NoFailDeliver inp] {s s' : Sys} {n : Nam
     simp only [hpc] at hs; cases hs
     exact invN_congr h rfl
 
-theorem dtick_invN {inp : RunInput} [NoFailDeliver inp] {s s' : Sys} {perm : List Name} (h : InvN inp s)
+theorem dtick_invN {inp : RunInput} {s s' : Sys} {perm : List Name} (hF : StartF inp s) (h : InvN inp s)
     (hs : dtick inp s perm = some s') : InvN inp s' := by
   unfold dtick at hs
   cases hc : s.cur with
@@ -101,7 +101,7 @@ theorem dtick_invN {inp : RunInput} [NoFailDeliver inp] {s s' : Sys} {perm : Lis
     simp only [hc] at hs
     cases hn : s.nodes n with
     | none => simp only [hn] at hs; cases hs; exact invN_congr h rfl
-    | some nd => simp only [hn] at hs; exact nodeStep_invN h hn hs
+    | some nd => simp only [hn] at hs; exact nodeStep_invN hF h hn hs
   | none =>
     simp only [hc] at hs
     cases hr : s.ready with
@@ -122,39 +122,41 @@ theorem dtick_invN {inp : RunInput} [NoFailDeliver inp] {s s' : Sys} {perm : Lis
 
 /-! ### `_update_waiting` -/
 
-theorem wakeOne_invN {inp : RunInput} [NoFailDeliver inp] {s : Sys} {pst : RS} {p w : Name} {nd : Node} (h : InvN inp s)
-    (hw : s.nodes w = some nd) (hp : stOf s p = pst) (hcr : wakeCrash p nd = false) :
+theorem wakeOne_invN {inp : RunInput} {s : Sys} {pst : RS} {p w : Name} {nd : Node} (h : InvN inp s)
+    (hw : s.nodes w = some nd) (hp : stOf s p = pst) (hcr : wakeCrash p nd = false)
+    (hF : pst = .fail → started s p = true → SF inp p) :
     InvN inp (wakeOne inp s pst p w nd) ∧ (∀ x, stOf (wakeOne inp s pst p w nd) x = stOf s x) := by
   have hS := h w nd hw
-  have hu := wokenNode_upd inp pst p nd
+  have hu := wokenF_upd inp s pst p nd
   have hin : p ∈ nd.waitRun ∨ p ∈ nd.waitRunCalc := by
     simp only [wakeCrash, Bool.and_eq_false_iff, decide_eq_false_iff_not, Decidable.not_not] at hcr
     exact hcr
-  have hst : ∀ x, stOf (setNode s w (wokenNode inp pst p nd)) x = stOf s x := stOf_setNode_same hw hu.status
-  have h1 : InvN inp (setNode s w (wokenNode inp pst p nd)) := invN_setNode h hw hu.status (wokenNode_S hS hin hp)
-  rw [wakeOne_eq (inp := inp)]
+  have hst : ∀ x, stOf (setNode s w (wokenF inp s pst p nd)) x = stOf s x := stOf_setNode_same hw hu.status
+  have h1 : InvN inp (setNode s w (wokenF inp s pst p nd)) := invN_setNode h hw hu.status (wokenF_S hS hin hp hF)
+  unfold wakeOne
   split
   · exact ⟨invN_congr h1 rfl, hst⟩
   · exact ⟨h1, hst⟩
 
-theorem updateWaiting_invN {inp : RunInput} [NoFailDeliver inp] {pst : RS} {p : Name} :
-    ∀ (perm : List Name) (s s' : Sys), InvN inp s → stOf s p = pst → updateWaiting inp pst p s perm = some s' →
-      InvN inp s' := by
+theorem updateWaiting_invN {inp : RunInput} {pst : RS} {p : Name} :
+    ∀ (perm : List Name) (s s' : Sys), InvN inp s → stOf s p = pst → (pst = .fail → started s p = true → SF inp p) →
+      updateWaiting inp pst p s perm = some s' → InvN inp s' := by
   intro perm
   induction perm with
-  | nil => intro s s' h _ hs; simp only [updateWaiting] at hs; cases hs; exact h
+  | nil => intro s s' h _ _ hs; simp only [updateWaiting] at hs; cases hs; exact h
   | cons w ws ih =>
-    intro s s' h hp hs
+    intro s s' h hp hF hs
     simp only [updateWaiting] at hs
     cases hw : s.nodes w with
-    | none => simp only [hw] at hs; exact ih s s' h hp hs
+    | none => simp only [hw] at hs; exact ih s s' h hp hF hs
     | some nd =>
       simp only [hw] at hs
       split at hs
       · cases hs
       · rename_i hcr
-        obtain ⟨h1, e1⟩ := wakeOne_invN (w := w) h hw hp (by simpa using hcr)
-        exact ih _ s' h1 (by rw [e1]; exact hp) hs
+        obtain ⟨h1, e1⟩ := wakeOne_invN (w := w) h hw hp (by simpa using hcr) hF
+        exact ih _ s' h1 (by rw [e1]; exact hp)
+          (by rw [started_congr (wakeOne_events inp s pst p w nd) p]; exact hF) hs
 
 theorem sendHead_invN {inp : RunInput} {s : Sys} {p : Name} {nd : Node} (h : InvN inp s)
     (hn : s.nodes p = some nd) :
@@ -170,7 +172,8 @@ theorem sendHead_invN {inp : RunInput} {s : Sys} {p : Name} {nd : Node} (h : Inv
     exact stOf_setNode_same (x := { nd with waitSelect := false }) hn rfl x
   · exact ⟨invN_congr h rfl, fun _ => rfl⟩
 
-theorem send_invN {inp : RunInput} [NoFailDeliver inp] {s s' : Sys} {processed : Option Name} {perm : List Name} (h : InvN inp s)
+theorem send_invN {inp : RunInput} {s s' : Sys} {processed : Option Name} {perm : List Name} (hF : StartF inp s)
+    (h : InvN inp s)
     (hs : send inp s processed perm = some s') : InvN inp s' := by
   unfold send at hs
   cases processed with
@@ -192,7 +195,10 @@ theorem send_invN {inp : RunInput} [NoFailDeliver inp] {s s' : Sys} {processed :
             | none => simp only [hu] at hs; cases hs; exact invN_congr h1 rfl
             | some s2 =>
               simp only [hu] at hs; cases hs
-              exact invN_congr (updateWaiting_invN perm _ s2 h1 (by rw [e1, hst]) hu) rfl
+              refine invN_congr (updateWaiting_invN perm _ s2 h1 (by rw [e1, hst]) ?_ hu) rfl
+              intro e1' e2'
+              rw [started_congr (sendHead_events s p nd) p] at e2'
+              exact hF p (hst.trans e1') e2'
           · cases hs
 
 end DoitModel.Run.Dyn
